@@ -180,6 +180,6 @@ SUBS = {"kernel": Sub(kernel_pred, strategy=kernel_cases), "grid": Sub(grid_pred
 
 
 def jobs(tier):
-    n1, n2 = (100, 8) if tier == "quick" else (3000, 200)
+    n1, n2 = (100, 8) if tier == "quick" else (20000, 1200)
     return ([{"sub": "kernel", "n": n1, "shard": i} for i in range(6)] +
             [{"sub": "grid", "n": n2, "shard": i} for i in range(10)])
